@@ -229,8 +229,74 @@ def oracleFuse (c : Case) (doC03 : Bool) : Option (List String) :=
       ++ check "C03.uncertainty" (closeQ τ u sp.2.1)
       ++ check "C03.base_rate" (closeList τ a sp.2.2))
 
+/-- conditional table at offset: n simplexes over m values: list of (b, u) -/
+def condAt (xs : Array Rat) (off n m : Nat) : List (List Rat × Rat) :=
+  (List.range n).map fun x => (slice xs (off + x * (m + 1)) m, xs.getD (off + x * (m + 1) + m) 0)
+
+def condWf (δ : Rat) (cs : List (List Rat × Rat)) : Bool := cs.all fun c => wfSimplex δ c.1 c.2
+
+/-- total weight of belief carried by conditionals of positive base rate: Σ_x a_x (1 - u_x) -/
+def beliefWeight (ax : List Rat) (cs : List (List Rat × Rat)) : Rat :=
+  sumQ (List.zipWith (fun a c => a * sumQ c.1) ax cs)
+
+/-- fixed point: a_y = Σ_x a_x (b(y|x) + a_y u_x) -/
+def mbrFixedPoint (τ : Rat) (ax : List Rat) (cs : List (List Rat × Rat)) (ay : List Rat) : Bool :=
+  (List.range ay.length).all fun y =>
+    let ayy := ay.getD y 0
+    closeQ τ ayy (sumQ (List.zipWith (fun a c => a * (c.1.getD y 0 + ayy * c.2)) ax cs))
+
+/-- C08: marginal base rate is a fixed-point distribution or absent, never NaN -/
+def oracleC08 (c : Case) : Option (List String) :=
+  let n := c.ints.getD 0 0
+  let m := c.ints.getD 1 0
+  match allSome c.inp with
+  | none => none
+  | some xs =>
+  let τ := tauSpec c.fmt
+  match c.op with
+  | "mbr" =>
+    let ax := slice xs 0 n
+    let cs := condAt xs n n m
+    if !(wfBaseRate 0 ax && condWf 0 cs) then none else
+    let w := beliefWeight ax cs
+    if c.cls == "none" then some (check "C08.none_iff" (decide (w = 0)))
+    else if c.cls != "ok" then some ["C08.no_value(" ++ c.cls ++ ")"]
+    else match allSome c.out with
+      | none => some ["C08.nan"]
+      | some out =>
+        let ay := out.toList
+        some (check "C08.none_iff" (decide (w ≠ 0))
+          ++ check "C08.some_dist" (wfBaseRate (τ * m) ay)
+          ++ check "C08.fixed_point" (mbrFixedPoint τ ax cs ay))
+  | "deduce" | "deduce_with" =>
+    let (_, _, ax) := opinionAt xs 0 n
+    let cs := condAt xs (2 * n + 1) n m
+    if !(wfBaseRate 0 ax && condWf 0 cs) then none else
+    let w := beliefWeight ax cs
+    if c.op == "deduce" then
+      if c.cls == "none" then some (check "C08.deduce_none_iff" (decide (w = 0)))
+      else if c.cls != "ok" then some ["C08.no_value(" ++ c.cls ++ ")"]
+      else match allSome c.out with
+        | none => some ["C08.nan_poisoned"]
+        | some _ => some (check "C08.deduce_none_iff" (decide (w ≠ 0)))
+    else
+      if c.cls != "ok" then some ["C08.no_value(" ++ c.cls ++ ")"] else
+      match allSome c.out with
+      | none => some ["C08.nan_poisoned"]
+      | some _ => some (check "C08.fallback_lazy" (c.flags == [decide (w = 0)]))
+  | "abduce" =>
+    let cs := condAt xs (2 * m + 1) n m
+    let ax := slice xs (2 * m + 1 + n * (m + 1)) n
+    if !(wfBaseRate 0 ax && condWf 0 cs) then none else
+    let w := beliefWeight ax cs
+    if c.cls == "none" then some (check "C08.abduce_none_iff" (decide (w = 0)))
+    else if c.cls != "ok" then some ["C08.no_value(" ++ c.cls ++ ")"]
+    else some (check "C08.abduce_none_iff" (decide (w ≠ 0)))
+  | _ => none
+
 def oracle (c : Case) : Option (List String) :=
   match c.prop with
+  | "C08" => oracleC08 c
   | "C02" => oracleFuse c false
   | "C03" => oracleFuse c true
   | "C09" => oracleC09 c
